@@ -6,6 +6,7 @@ import (
 	"errors"
 	"fmt"
 	"net"
+	"os"
 	"strings"
 	"sync"
 	"sync/atomic"
@@ -180,14 +181,30 @@ func (s *Server) PanicLogged() (string, bool) {
 	return l[i:end], true
 }
 
-// FreeLocalPort reserves a loopback port by listening and closing.
+var portCounter int64
+
+// FreeLocalPort returns a loopback port that is free right now. Ports come
+// from a per-process slice of the range below the kernel's ephemeral range:
+// servers of other harness processes (which listen on kernel-chosen ephemeral
+// ports) and other shards can then never take the port over while a property
+// checks that THIS server has released it.
 func FreeLocalPort() (int, error) {
-	l, err := net.Listen("tcp", "127.0.0.1:0")
-	if err != nil {
-		return 0, err
+	base := 10000 + (os.Getpid()%200)*100
+	for i := 0; i < 100; i++ {
+		p := base + int(atomic.AddInt64(&portCounter, 1)%100)
+		l4, err := net.Listen("tcp", fmt.Sprintf("127.0.0.1:%d", p))
+		if err != nil {
+			continue
+		}
+		l6, err := net.Listen("tcp", fmt.Sprintf("[::1]:%d", p))
+		l4.Close()
+		if err != nil {
+			continue
+		}
+		l6.Close()
+		return p, nil
 	}
-	defer l.Close()
-	return l.Addr().(*net.TCPAddr).Port, nil
+	return 0, fmt.Errorf("%w: no free port in the process range %d..%d", ErrHarness, base, base+99)
 }
 
 // StartTLSHandler is a conforming StartTLS handler: success response, then the
